@@ -4,7 +4,7 @@ PLAN = dict(
           "in any letter case / multi-valued x status 100..999 x body lengths around 23/24, 255/256, 65535/65536 and lengths that push the header CBOR or the "
           "whole response item over a head boundary x primary URL / manifest / signatures section with fixture certificates, OCSP/SCT blobs and arbitrary "
           "vouched subsets x b1 variant groups: 1-3 axes x 1-3 values, full cross product in shuffled caller order, optionally one representation dropped "
-          "(incomplete), duplicated (overlap) or two keys merged into a multi-key representation) followed by 1..4 write/read cycles. Oracle: model map "
+          "(incomplete), duplicated (overlap) or two keys merged into a multi-key representation) followed by 1..4 write/read cycles; plus fixed bundles with one body of 2^k / 2^k+1 octets for k=16..24 (thorough: ..26). Oracle: model map "
           "URL -> ordered responses (row-major order of the axes) == read-back multiset; version/primary/manifest/signatures field by field; raw index keys "
           "(independent parser) == url.String() of the written URLs; invalid variant coverage, duplicate URLs and b2 manifests refused at write time; "
           "x1=W(R(x0)), x2=W(R(x1)),... byte-identical (skipped and counted for multi-key Variant-Key bundles). Non-trivial: >=2 exchanges with a body "
@@ -18,6 +18,7 @@ PLAN = dict(
     level_note=NOTE_BASE,
     runs=[
         dict(name="rt", run="^(TestPropRoundTrip|TestCorpus)$", checks=(1500, 200000), shards=(2, 16), timeout=(300, 3600)),
+        dict(name="large", run="^TestLargeBodies$", timeout=(300, 1800), mem_gb=6),
     ],
     require=[("roundtrip", "variants"), ("roundtrip", "variants-multikey"), ("roundtrip", "write-must-fail"), ("roundtrip", "signatures"),
              ("roundtrip", "fixpoint-checked"), ("roundtrip", "body-head-w4"), ("roundtrip", "b1"), ("roundtrip", "b2"), ("roundtrip", "exchanges>=24"), ("roundtrip", "plain-reader")],
